@@ -338,6 +338,17 @@ class Holder:
 
 
 @dataclass
+class DerivedNest(Base):
+    """Subclass that itself contains a nested model (an object one level BELOW a best-match object in JSON)."""
+
+    class Meta:
+        name = "derivednest"
+        namespace = NS_A
+
+    inner: Optional[Child] = field(default=None, metadata={"type": "Element"})
+
+
+@dataclass
 class DerivedB(Base):
     """Subclass in ANOTHER namespace: the inherited field keeps the namespace of the class that declares it."""
 
@@ -512,7 +523,7 @@ class Temporal:
 
 
 ALL_MODELS = [Basic, TextAttr, TextStr, ReqText, Lists, TokenLists, Frozen, Nillable, NilChild, NilParent, Child, ParentA, ParentB, NsAttr, Unqualified,
-              Sequential, Wrapped, Formats, Unions, Enums, QNames, Alpha, Compound, CompoundSingle, Base, Derived, Sibling, DerivedB, Dup, Numeric, Textual, UnionModels, NsAttrParent, ShapeBase, CircleV1, CircleV2, ShapeHolder, Family, Holder,
+              Sequential, Wrapped, Formats, Unions, Enums, QNames, Alpha, Compound, CompoundSingle, Base, Derived, Sibling, DerivedNest, DerivedB, Dup, Numeric, Textual, UnionModels, NsAttrParent, ShapeBase, CircleV1, CircleV2, ShapeHolder, Family, Holder,
               Wild, WildList, Mixed, AnyTyped, Defaults, Temporal]
 
 
